@@ -27,6 +27,12 @@ func c09Source(seed, idx uint64) (src string, optName string, opts func(sample *
 		// the environment type in value and in pointer form (methods with a
 		// pointer receiver exist for the pointer form only): what one form
 		// compiles to must not depend on which form was compiled before
+		if r.Chance(1, 3) {
+			// an environment function that changes its argument in place gets
+			// a value the expression created, never a constant of the program
+			src = r.Pick([]string{"RevInts(1..3)[0]", "RevInts([3, 1, 2])", "RevInts(1..5)", "RevInts((1..4)[1:3])", "[RevInts([1, 2]), RevInts([1, 2])]", "map(1..2, {RevInts([1, 2, 3])[0]})"})
+			return src, "Env(Env)", func(s *envs.Env, _ *OpEnv) []expr.Option { return []expr.Option{expr.Env(*s)} }, false
+		}
 		src = r.Pick([]string{"PInc(A)", "PInc(1) + Inc(2)", "AddA(PInc(B))", "Inc(A) + AddA(1)", "map(Ints, {PInc(#)})", "It.Double() + PInc(2)", "A + B", "Cat(S, T)"})
 		if r.Bool() {
 			return src, "Env(*Env)", func(s *envs.Env, _ *OpEnv) []expr.Option { return []expr.Option{expr.Env(s)} }, false
@@ -110,6 +116,51 @@ func init() {
 				}
 				c.SetAdd(fmt.Sprintf("xproc_%d", idx%16), fmt.Sprintf("%d=%s|%s", idx, d, optName))
 				c.Count("cross_process_compilations", 1)
+			}},
+			{Name: "rejected-options", N: func(tier string) uint64 {
+				if tier == "thorough" {
+					return 2000
+				}
+				return 100
+			}, Run: func(c *runner.Ctx, idx uint64) {
+				// several invalid options at once: which one Compile reports
+				// must not depend on the iteration order of a map
+				r := c.R
+				ops := []string{"+", "-", "*", "/", "==", "<", "and", "in"}
+				var opts []expr.Option
+				sample := envs.New(&envs.Log{})
+				envs.Fill(sample, 2, runner.NewRng(1))
+				opts = append(opts, expr.Env(*sample))
+				n := 2 + r.Intn(5)
+				for i := 0; i < n; i++ {
+					if r.Bool() {
+						opts = append(opts, expr.Operator(ops[(int(idx)+i)%len(ops)], r.Pick([]string{"Missing1", "Missing2", "A", "FnI", "FnVar"})))
+					} else {
+						opts = append(opts, expr.ConstExpr(r.Pick([]string{"A", "B", "S", "Ints", "It"})))
+					}
+				}
+				c.Begin(fmt.Sprintf("rejected options #%d (%d invalid options)", idx, n))
+				first := ""
+				for k := 0; k < 40; k++ {
+					_, co := SafeCompile("1 + 1", opts...)
+					c.Eval(1)
+					if co.Panic != nil {
+						c.Violate("compile-panic", fmt.Sprint(co.Panic), map[string]interface{}{"source": "1 + 1"})
+						return
+					}
+					msg := "accepted"
+					if co.Err != nil {
+						msg = co.Err.Error()
+					}
+					if k == 0 {
+						first = msg
+					} else if msg != first {
+						c.Violate("compile-verdict-varies:invalid-options", fmt.Sprintf("the same Compile call reports %q, then %q", first, msg), map[string]interface{}{"source": "1 + 1", "invalid_options": n, "first": first, "later": msg})
+						return
+					}
+				}
+				c.Count("rejected_option_sets_compiled_40x", 1)
+				c.Distinct(fmt.Sprintf("badopts|%d|%s", idx, first))
 			}},
 			{Name: "purity", N: func(tier string) uint64 {
 				if tier == "thorough" {
